@@ -2,6 +2,7 @@ package main
 
 import (
 	"fmt"
+	"strings"
 
 	"github.com/0xrawsec/sod"
 )
@@ -27,7 +28,71 @@ func (w *World) obsForReopen() (ObsOpts, map[string]string) {
 	return o, w.Observe(o)
 }
 
+// runC04InvalidUTF8: directed, seed-independent scenario of a listed finding (DESIGN 3.5 / 5): Go
+// strings are byte strings, the files are JSON. A string that is not valid UTF-8 is indexed and
+// cached as it is and written with U+FFFD in place of every invalid byte, so closing and reopening
+// changes what is stored, and an index that was ordered on the raw bytes may not be on the stored
+// ones. The scenario passes once sod treats such strings consistently (whatever way it chooses).
+func runC04InvalidUTF8(k int, rng *Rng) CaseResult {
+	cfg := Config{Ext: ".json", Fields: map[string]Cons{"S": {Index: true}}}
+	clockNewCase(clockModeFor(cfg))
+	installHooks(stdHooks())
+	w := NewWorld("C04", rng, cfg, caseDir(k, "c04u"))
+	w.noHostile = true
+	defer w.Cleanup()
+	if !w.OpenCreate() {
+		return w.finish(nil, false, nil)
+	}
+	a := genRec(rng, 0, RecOpts{ValidOnly: true, Simple: true})
+	b := genRec(rng, 1, RecOpts{ValidOnly: true, Simple: true})
+	a.S, b.S = "\xff", "\ufffe" // raw byte 0xff sorts above U+FFFE (ef bf be); its stored form U+FFFD (ef bf bd) below
+	var err error
+	for _, x := range []*Rec{a, b} {
+		x := x
+		w.call("InsertOrUpdate", func() { err = w.db.InsertOrUpdate(x) })
+		if err != nil {
+			// refusing what the file format cannot hold is one consistent treatment
+			return w.finish([]string{"invalid-utf8", "refused"}, true, nil)
+		}
+	}
+	look := func() string {
+		var out []string
+		var e error
+		var o sod.Object
+		w.call("GetByUUID", func() { o, e = w.db.GetByUUID(&Rec{}, a.UUID()) })
+		if r, ok := o.(*Rec); ok && e == nil {
+			out = append(out, fmt.Sprintf("S=%q", r.S))
+		} else {
+			out = append(out, fmt.Sprintf("get: %v", e))
+		}
+		for _, probe := range []string{"\xff", "\ufffd"} {
+			var n int
+			w.call("Search", func() {
+				s := w.db.Search(&Rec{}, "S", "=", probe)
+				n, e = s.Len(), s.Err()
+			})
+			out = append(out, fmt.Sprintf("S = %q -> %d matches, err=%v", probe, n, e))
+		}
+		return strings.Join(out, "; ")
+	}
+	before := look()
+	w.call("Close", func() { err = w.db.Close() })
+	if err != nil {
+		w.fail("close-failed", "Close", "-", err.Error())
+		return w.finish(nil, true, nil)
+	}
+	w.Open()
+	after := look()
+	if before != after && !w.failed() {
+		w.fail("string-not-preserved", "close-reopen", "invalid-utf8", fmt.Sprintf("objects holding S=%q and S=%q, S indexed:\n old handle: %s\n new handle: %s", a.S, b.S, before, after))
+	}
+	return w.finish([]string{"invalid-utf8"}, true, nil)
+}
+
 func runC04(k int, rng *Rng) CaseResult {
+	if k == 0 {
+		return runC04InvalidUTF8(k, rng)
+	}
 	cfg := genConfig(rng, GenOpts{UniqueBias: 0.3})
 	// make the precision-sensitive fields indexed often
 	for _, p := range []string{"I64", "U64", "T", "N.A"} {
